@@ -282,6 +282,27 @@ example : SinglesWF demoM ∧ PlacedDistinct demoM ∧ ∃ m', sortNewItems demo
     simp [demoM, Module.all, RModule.toModule] at he
     rcases he with rfl | rfl | rfl <;> simp [u32max]
 
+/-! ### a kind without a placed element (known finding C15-end-group) -/
+
+/-- the elements of a list in which nothing is placed stay new (uid 0) through a call - and so through every call:
+    they are written behind all placed elements, but are placed again, together with every later new element, each time -/
+theorem list_without_placed_stays_new (es : List Elem) (h : ∀ e ∈ es, e.uid = 0) :
+    sortObjectlistNew es = .ok (es.mergeSort newLe) ∧ ∀ e ∈ es.mergeSort newLe, e.uid = 0 :=
+  sortObjectlistNew_all_new es h
+
+/-- the witness of the finding at the level of the writer: of two elements that are not placed and have no line of
+    their own (pushed through the API) the one with the smaller tag is written first, whichever was added first -/
+theorem unplaced_smaller_tag_first (a b : Elem) (ha : a.uid = 0) (hb : b.uid = 0) (hl : a.line = b.line)
+    (ht : a.tag < b.tag) : writerLe a b = true ∧ writerLe b a = false := by
+  rw [writerLe_unplaced a b ha hb, writerLe_unplaced b a hb ha]
+  simp only [hl, ↓reduceIte, decide_eq_true_eq, decide_eq_false_iff_not]
+  exact ⟨String.not_lt.1 (String.lt_asymm ht), String.not_le.2 ht⟩
+
+/-- FUNCTION fnew, added in the third cycle, against UNIT zz, added in the first: fnew is written first -/
+example : writerLe ⟨"FUNCTION", "fnew", 0, 0, 3⟩ ⟨"UNIT", "zz", 0, 0, 1⟩ = true ∧
+    writerLe ⟨"UNIT", "zz", 0, 0, 1⟩ ⟨"FUNCTION", "fnew", 0, 0, 3⟩ = false :=
+  unplaced_smaller_tag_first _ _ rfl rfl rfl (by decide)
+
 /-- non-vacuity of the history theorem: a push into the MEASUREMENT list of `demoM` followed by a call is admissible,
     starts in the invariant, and returns -/
 example : IterInv demoM ∧ Admissible [.push 0 ⟨"MEASUREMENT", "n2", 0, 0, 7⟩, .sni] demoM ∧
